@@ -841,6 +841,10 @@ def validate_branching(ctx, module, cfg, trace_path, parts, what, extra_files, t
             files.update(extra_files)
             run = ctx.tlc(module, cfg, files=files, workers=1, deque=True, name="%s-b%d-r%d" % (what, bi, rounds), timeout=timeout, heap="3g")
             out["states"] += run.distinct
+            diffs = {ln for ln in open(run.out, errors="replace") if ln.startswith('<<"METRICS-DIFF"')}
+            if diffs:
+                ctx.note("%s: the store's exported metrics differ from the specification's history counters at the end of %d histories "
+                         "(informational: no listed property constrains the metrics)" % (what, len(diffs)))
             errs = " ".join(run.errors)
             if run.code != 0 and "NotDone" in errs:
                 out["accepted"] += len(hs)
